@@ -10,7 +10,12 @@ func init() {
 			Outside:     []string{"DoMultiCache and the MGET/JSON.MGET commit branch; adapter stores at pipe level (covered at store level by C09)", "schedules needing more than D delays", "SetOnInvalidations on dedicated clients and CLIENT TRACKING OFF on release (C25)"},
 			Bounds:      map[string]any{"quick": "one key under test, 4 invalidation kinds × 2 tracking modes × static/non-static × 2 PTTLs × 2 queues; D = 1", "thorough": "D = 2 (path budget 600k; reported as reduced bound if exceeded)"},
 			specs: func(tier string) []specRef {
-				return []specRef{hsd(rootPkg, "VerifC06_pipe", nil, q(tier, 1, 1), 5000000, 3400, "kept", "refetched", "done")}
+				s := []specRef{hsd(rootPkg, "VerifC06_pipe", nil, q(tier, 1, 1), 5000000, 3400, "kept", "refetched", "done")}
+				if id == "C06" { // the stores' invalidation step from arbitrary states (shared with C09)
+					s = append(s, hsx(rootPkg, "VerifC09_stepLRU", P{"map_order": 1}, 5000000, 3400, "invalidate", "flush", "close"),
+						hsx(rootPkg, "VerifC09_stepAdapter", P{"map_order": 1}, 5000000, 3400, "invalidate", "flush", "close"))
+				}
+				return s
 			},
 		}
 	}
